@@ -302,7 +302,7 @@ class Run:
     def set_method(self, lines) -> dict:
         lines = lines_of(lines)
         rec = {"tick": self.tickno, "kind": "edit", "accepted": True, "error": None, "mode": None,
-               "mstate_before": self.method_state()}
+               "mstate_before": self.method_state(), "interrupts_before": len(self.engine.interpreter.interrupts)}
         try:
             rec["mode"] = self.engine.set_method(to_method(lines))
             self.lines = lines
